@@ -4,9 +4,11 @@
 (* harness executes every row on the real constructors.                       *)
 EXTENDS Integers, TLC
 
-Metas    == {"none", "declared"}         \* declared = {"a": int, "b": str}
+Metas    == {"none", "declared"}         \* declared = {"a": int, "b": str, "c": float}
 Contents == {"nondict_int", "nondict_none", "nondict_list",
-             "exact", "exact_subclass",  \* bool where int is declared
+             "exact", "exact_subclass",  \* bool where int is declared (bool IS an int)
+             "str_subclass",             \* an instance of a subclass of str where str is declared
+             "int_for_float", "bool_for_float", "float_for_int",   \* numbers of the wrong class: int is NOT a float
              "missing_key", "extra_key", "renamed_key", "value_none", "wrong_type",
              "empty_dict"}
 Checks   == {TRUE, FALSE}
@@ -14,7 +16,7 @@ Stamps   == {"untimed", "int", "float", "str", "none"}
 EvTypes  == {"eventtype", "string", "none"}   \* what is passed as event_type
 
 IsDict(c) == c \notin {"nondict_int", "nondict_none", "nondict_list"}
-Conforms(c) == c \in {"exact", "exact_subclass"}
+Conforms(c) == c \in {"exact", "exact_subclass", "str_subclass"}
 
 Accept(et, m, c, chk, st) ==
     /\ st \in {"untimed", "int", "float"}
